@@ -43,17 +43,21 @@ def strings(surrogates: bool = False) -> st.SearchStrategy:
     return st.one_of(st.sampled_from(EDGE_STRINGS), st.text(alphabet, max_size=12))
 
 
+SCALAR_POOL = [None, True, False] + EDGE_INTS + EDGE_FLOATS + EDGE_STRINGS
+
+
 def scalars(big: bool = True) -> st.SearchStrategy:
-    return st.one_of(
-        st.none(), st.booleans(), integers_with_big() if big else integers(), floats(), strings(),
-    )
+    pool = st.sampled_from(SCALAR_POOL)
+    rnd = st.one_of(st.integers(-2**70, 2**70), st.floats(allow_nan=False, allow_infinity=False),
+                    st.text(st.characters(exclude_categories=['Cs']), max_size=12))
+    return st.one_of(pool, pool, pool, rnd, big_int()) if big else st.one_of(pool, pool, pool, rnd)
 
 
 def keys() -> st.SearchStrategy:
     return st.one_of(st.sampled_from(['', 'a', 'b', 'id', 'jsonrpc', 'self', 'code', 'data', '0']), st.text(st.characters(exclude_categories=['Cs']), max_size=6))
 
 
-def json_value(max_leaves: int = 12, big: bool = True) -> st.SearchStrategy:
+def _recursive_value(max_leaves: int, big: bool) -> st.SearchStrategy:
     return st.recursive(
         scalars(big),
         lambda children: st.one_of(
@@ -62,6 +66,29 @@ def json_value(max_leaves: int = 12, big: bool = True) -> st.SearchStrategy:
         ),
         max_leaves=max_leaves,
     )
+
+
+def _build_pool() -> list:
+    """A fixed, deterministic pool of diverse JSON values: one Hypothesis draw instead of a recursive one
+    (st.recursive costs ~3 ms per value, which would dominate every check)."""
+    sc = [None, True, False, 0, 1, -1, 2**31, 2**53 + 1, -2**63, 10**30, 0.0, -0.0, 1.0, 1.5, 1e308, 5e-324, 0.1,
+          '', 'a', '1', 'null', 'id', '"', '\\', '\n', '\x00', '\u00e9', '\u2028', '\U0001f600', '{"a":1}']
+    pool = list(sc)
+    pool += [[], {}, [[]], [{}], {'': []}, {'a': {}}, [None], [0], [False], [''], {'a': None}, {'': 0}, {'id': 1, 'jsonrpc': '2.0'}]
+    for i, v in enumerate(sc):
+        w = sc[(i * 7 + 3) % len(sc)]
+        pool.append([v, w])
+        pool.append({'a': v, 'b': [w]})
+        pool.append({'k': {'n': [v, {'deep': w}]}, '': w})
+        pool.append([[v], [[w]], {'self': v}])
+    pool += [nested(d, leaf, kind) for d in (2, 5, 16, 40) for leaf in (1, None, 'x') for kind in ('list', 'dict', 'mixed')]
+    pool += [list(range(20)), {str(i): i for i in range(12)}, ['x' * 300], 'y' * 1000]
+    return pool
+
+
+def json_value(max_leaves: int = 12, big: bool = True) -> st.SearchStrategy:
+    pool = st.sampled_from(POOL)
+    return st.one_of(pool, pool, scalars(big), _recursive_value(max_leaves, big))
 
 
 def json_container(max_leaves: int = 8) -> st.SearchStrategy:
@@ -77,6 +104,9 @@ def nested(depth: int, leaf: Any = 1, kind: str = 'list') -> Any:
         else:
             v = {'k': v}
     return v
+
+
+POOL = _build_pool()
 
 
 # ids -------------------------------------------------------------------------------------------
